@@ -55,7 +55,7 @@ def random_buffers(rnd, count):
 def check(ctx):
     maxL = 7 if ctx.tier == "quick" else 8
     ctx.rule = ("all buffers of length 0..%d over the length-skeleton alphabet (exhaustive; property quantifier names 0..10, lengths %d..10 are covered by the theorem and by random structured buffers), "
-                "plus seeded random structured/mutated buffers up to 2304 bytes; each buffer in an exact-size heap block under ASan; "
+                "plus seeded random structured/mutated buffers up to 2304 bytes and long buffers (to 131 080 octets, whole and cut in the last element); each buffer in an exact-size heap block under ASan; "
                 "distinct = (op, canonical output)" % (maxL, maxL + 1))
     r = fw.prepare(ctx, MODULE)
     if r is None:
@@ -70,6 +70,15 @@ def check(ctx):
     rl = ["it " + hexs(b) for b in random_buffers(rnd, 3000 if ctx.tier == "quick" else 60000)]
     fw.run_suite(ctx, exe, "S-it/skeleton", lines, "tag iteration")
     fw.run_suite(ctx, exe, "S-it/random", rl, "tag iteration")
+    # long buffers: maximal and mixed elements up to and beyond 64 KiB / 128 KiB, whole and cut inside the last element
+    lb = []
+    for total in (250, 255, 256, 257, 300, 4096, 65530, 65536, 65540, 70000, 131080):
+        b = b""
+        while len(b) + 2 < total:
+            l = min(rnd.choice([255, 255, 254, 1, rnd.randrange(1, 256)]), total - len(b) - 2)
+            b += bytes([rnd.choice([0, 3, 48, 221, rnd.randrange(256)]), l]) + bytes(rnd.getrandbits(8) for _ in range(l))
+        lb += ["it " + hexs(b), "it " + hexs(b[:-1]), "it " + hexs(b + b"\xdd")]
+    fw.run_suite(ctx, exe, "S-it/long", lb, "tag iteration over long buffers")
     ci = fw.corpus_inputs(ctx, random.Random(ctx.seed + 77))
     its = set()
     for rt, b in ci:
